@@ -69,6 +69,17 @@ class Gen:
         lo = self.rng.randint(0, h - 1)
         return (lo, self.rng.randint(lo + 1, h))
 
+    def intervals_for_count(self):
+        """1..4 intervals, in any order; a third of the lists contain nested / overlapping non-neighbouring entries"""
+        rng = self.rng
+        ivs = [self.interval() for _ in range(rng.randint(1, 3))]
+        if rng.random() < 0.35:
+            lo, hi = self.interval()
+            inner = (lo, hi) if hi - lo < 2 else (lo + 1, hi)
+            far = (min(self.H(), hi + 2), min(self.H(), hi + 2) + 2)
+            ivs = [(lo, hi), far, inner] if rng.random() < 0.5 else [inner, far, (lo, hi)] + ivs[:1]
+        return ivs
+
     def tasks(self):
         return list(self.real.tasks)
 
@@ -210,8 +221,7 @@ class Gen:
                 lambda: ("contiguous", multi),
                 lambda: ("unorderedGroup", multi, win, rng.choice([0, 3, 6, self.H()])),
                 lambda: ("orderedGroup", multi, win, rng.choice([0, 4, 8, self.H()]), rng.choice(["lax", "strict", "tight"])),
-                lambda: ("scheduleN", multi, rng.randint(0, len(multi)),
-                         [self.interval() for _ in range(rng.randint(1, 3))], self.count_kind()),
+                lambda: ("scheduleN", multi, rng.randint(0, len(multi)), self.intervals_for_count(), self.count_kind()),
             ]
         if opts:
             o = rng.choice(opts)
